@@ -1113,6 +1113,76 @@ def r13(ctx):
                 f'{sorted({n for _, n, _ in out.raises})}); expected {want}', f.loc())
 
 
+# ---------------------------------------------------------------- grammar enumeration (thorough tier)
+G11_LINES = [
+    ('#CRTFv0', 'skip', None), ('# a comment, with global coord=B1950 inside', 'skip', None), ('', 'skip', None),
+    ('global coord=B1950, color=blue', 'global', {'coord': 'B1950', 'color': 'blue'}),
+    ('global color=green', 'global', {'color': 'green'}),
+    ('global COORD=J2000, linewidth=2', 'global', {'coord': 'J2000', 'linewidth': '2'}),
+    ('circle[[1deg, 2deg], 3deg]', 'reg', ('+', 'reg', 'circle', '[[1deg, 2deg], 3deg]', '')),
+    ('-circle[[1deg,2deg],3deg], color=red', 'reg', ('-', 'reg', 'circle', '[[1deg,2deg],3deg]', 'color=red')),
+    ('ann box[[1deg,2deg],[3deg,4deg]] coord=GALACTIC', 'reg', ('+', 'ann', 'box', '[[1deg,2deg],[3deg,4deg]]', 'coord=GALACTIC')),
+    ('+ann ellipse[[1deg, 2deg], [3deg, 4deg], 5deg]', 'reg', ('+', 'ann', 'ellipse', '[[1deg, 2deg], [3deg, 4deg], 5deg]', '')),
+    ('-ann symbol[[1deg, 2deg], .]', 'reg', ('-', 'ann', 'symbol', '[[1deg, 2deg], .]', '')),
+]
+
+
+def r14(ctx):
+    """every document of up to four lines over an 11-line CRTF grammar (version line, comment, blank line, three global
+    lines, five region lines with +/-/ann prefixes and inline metadata): the document parser, partially evaluated with
+    the per-line region parser replaced by a recorder, must hand every region line on with the global defaults an
+    independent state machine computes (a global line updates the defaults key by key, keys lower-cased), its include
+    sign, annotation type, shape keyword, bracket text and inline metadata text."""
+    import itertools
+    m = ctx.model
+    P = m.cls('_CRTFParser')
+    RP = m.cls('_CRTFRegionParser')
+    init = method_or_fail(ctx, P, '__init__')
+
+    def plain(x):
+        if isinstance(x, DictV):
+            return {k: plain(x.get(k)) for k in x.keys()}
+        if isinstance(x, Tup):
+            return [plain(i) for i in x.items]
+        if isinstance(x, Const):
+            return x.v
+        return show(x, 80)
+    n = nbad = 0
+    first = None
+    for k in (1, 2, 3, 4):
+        for seq in itertools.product(G11_LINES, repeat=k):
+            doc = '\n'.join(t for t, _, _ in seq)
+            g, want = {}, []
+            for text, kind, pay in seq:
+                if kind == 'global':
+                    g.update(pay)
+                elif kind == 'reg':
+                    want.append((dict(g),) + pay)
+            recs = []
+
+            def rp(ev, a, k_, recs=recs):
+                recs.append(tuple(plain(x) for x in a))
+                return Obj('_CRTFRegionParser', {'shape': Obj('_Shape', {}, f'shape{len(recs)}')}, None, RP)
+            ev = Evaluator(m, hooks={'_CRTFRegionParser': rp})
+            out = ev.run(init, [Obj('_CRTFParser', {}, 'parser', P), Const(doc)], {'errors': Const('strict')})
+            if [1 for pc, n_, _ in out.raises if [c for c in pc if not isinstance(c, Const)]]:
+                raise AnalysisError('C11.R14', repr(doc), 'document parser not reducible on a grammar document')
+            definite = [n_ for pc, n_, _ in out.raises if not [c for c in pc if not (isinstance(c, Const) and c.v is True)]]
+            got = [(r[0], r[1], r[2], r[3], r[4], (r[5] or '')) for r in recs if len(r) >= 6]
+            ok = not definite and len(got) == len(want) and all(
+                g_[0] == w[0] and g_[1:4] == w[1:4] and w[4] in g_[4] and g_[5].strip() == w[5] for g_, w in zip(got, want))
+            n += 1
+            if not ok:
+                nbad += 1
+                first = first or (doc, got, definite, want)
+    if nbad:
+        doc, got, definite, want = first
+        ctx.bad('_CRTFParser', 'grammar-documents', f'{nbad} of {n} grammar documents are split differently from the CASA rules, e.g. '
+                f'{doc!r} gives {got} (raises {definite}); expected {want}', init.loc())
+    else:
+        ctx.ok('_CRTFParser', f'{n} grammar documents (<= 4 lines over {len(G11_LINES)} line kinds) split as the CASA rules define')
+
+
 RULES = [
     RuleDef('R1', 'frame tables mutually inverse', r1, 8),
     RuleDef('R2', 'shape vocabulary: class -> type -> token -> class; text written', r2, 17),
@@ -1126,5 +1196,6 @@ RULES = [
     RuleDef('R11', 'coordinate and length token lexers (one probe token per dispatch branch)', r11, 2),
     RuleDef('R12', 'document level: global defaults, comments, ann/include prefixes, errors (probe documents)', r12, 8),
     RuleDef('R13', 'parsed shapes -> regions: one each, in order', r13, 1),
+    RuleDef('R14', 'grammar enumeration: all documents of <= 4 lines over an 11-line CRTF grammar against a state-machine oracle', r14, 1, tier='thorough'),
     RuleDef('R9', 'label and text values: written quoting is what the line/metadata regexes lex; bound to the region', r9, 4),
 ]
